@@ -1707,6 +1707,16 @@ func main() {
 		case "child-dump":
 			childDump(os.Args[2:])
 			return
+		case "ops": // print the operation list of a history: ops <mode> <seed> <nops>
+			seed, _ := strconv.ParseUint(os.Args[3], 10, 64)
+			nops, _ := strconv.Atoi(os.Args[4])
+			c := mkCfg(os.Args[2], seed, nops)
+			b, _ := json.Marshal(c)
+			fmt.Println(string(b))
+			for i, o := range genOps(c) {
+				fmt.Printf("%d: %s\n", i, o)
+			}
+			return
 		}
 	}
 	run := vlib.Start("C19", "exploration")
